@@ -12,6 +12,7 @@ A template is ordinary text (Rust) with directive blocks:
   //@@ after_all: <tokens> ==> <text> (text inserted after EVERY occurrence, zero or more: ghost arguments)
   //@@ before: <anchor tokens>
   //@@ before_stmt: <anchor tokens>   (lines inserted before the statement that contains the anchor)
+  //@@ match_str_desugar: match x {     (a match on string literals with block arms becomes the equivalent if / else-if chain)
   //@@ for_desugar: for <pat> in      (rewrites that for-loop into `let mut vx_it = (..).into_iter(); while let Some(pat) = vx_it.next()`)
   //@@ elide_arg: <callee>( ==> <expr>  (the argument list of each such call is replaced by <expr>; a DROP, recorded)
   //@@ closure_spec: <tokens ending in the closure's |params|> ==> -> (r: T) ensures ...
@@ -107,6 +108,57 @@ def _apply_common(piece, blk):
         hits, n = piece.find(anchor, unique=False)
         for h in hits:
             piece.insert_after(h + n - 1, txt, 'ghost_arg')
+    for anchor in blk.get('match_str_desugar', []):
+        # `match x { "a" => {A} "b" | "c" => {B} _ => {C} }` -> `if x == "a" {A} else if x == "b" || x == "c" {B} else {C}`
+        # (the meaning of a match on string literals; Verus gives such a match only the forward direction). anchor = `match x {`
+        hits, n = piece.find(anchor, unique=False, what='match_str_desugar')
+        if len(hits) != 1:
+            piece.counts['hint_skipped'] = piece.counts.get('hint_skipped', 0) + 1
+            continue
+        s_ = piece.src.s
+        h = hits[0]
+        scrut = ' '.join(t.text for t in s_[h + 1:h + n - 1])
+        open_i = h + n - 1
+        close_i = rtok.match_close(s_, open_i)
+        k = open_i + 1
+        first = True
+        ok = True
+        edits = []
+        while k < close_i:
+            pats = []
+            a0 = k
+            while s_[k].text != '=>':
+                if s_[k].kind == 'str' or s_[k].text == '_':
+                    pats.append(s_[k].text)
+                elif s_[k].text != '|':
+                    ok = False
+                k += 1
+            arrow = k
+            k += 1
+            if s_[k].text != '{':
+                ok = False
+                break
+            body_close = rtok.match_close(s_, k)
+            if pats == ['_']:
+                head = 'else ' if not first else ''
+            else:
+                cond = ' || '.join(f'{scrut} == {p}' for p in pats)
+                head = ('if ' if first else 'else if ') + cond + ' '
+            edits.append((a0, arrow, head))
+            k = body_close + 1
+            if k < close_i and s_[k].text == ',':
+                edits.append((k, k, ''))
+                k += 1
+            first = False
+        if not ok:
+            piece.counts['hint_skipped'] = piece.counts.get('hint_skipped', 0) + 1
+            continue
+        piece.replace_tokens(h, open_i, '', 'match_str_desugar')
+        for a_, b_, txt in edits:
+            piece.replace_tokens(a_, b_, txt, 'match_str_desugar')
+            piece.counts['match_str_desugar'] -= 1
+        piece.replace_tokens(close_i, close_i, '', 'match_str_desugar')
+        piece.counts['match_str_desugar'] -= 1
     for anchor in blk.get('for_desugar', []):
         # `for PAT in EXPR {`  ->  `let mut vx_it = (EXPR).into_iter(); while let Some(PAT) = vx_it.next() {`
         # (Rust's own definition of `for`; Verus supports continue only in while loops). anchor = `for PAT in`
@@ -476,6 +528,8 @@ def generate(repo, template_text, variables=None):
                 section = blk[d]
             elif d == 'extend_if_next':
                 blk.setdefault('extend_if_next', []).append(rest)
+            elif d == 'match_str_desugar':
+                blk.setdefault('match_str_desugar', []).append(rest)
             elif d == 'for_desugar':
                 blk.setdefault('for_desugar', []).append(rest)
             elif d == 'elide_arg':
